@@ -391,6 +391,12 @@ def r3(F, rep):
             if not mem:
                 rep.add("C12-R3", "freq-member|%s" % g.cls, g.loc(), "%s::replica_share_freq() does not return a member" % g.cls, False, func=g.q)
                 continue
+            # the accessor is a plain read of the configured frequency: calc_biases() takes "> 0" to mean "this bias does I/O or
+            # talks to peers on the main thread at every step", which does not depend on how many peers are known right now
+            pure = all(X.strip(X.kids(r)[0])["k"] == "MemberExpr" for r in rets)
+            rep.add("C12-R3", "freq-accessor|%s" % g.cls, g.loc(), "%s::replica_share_freq() returns %s" % (
+                g.cls, "the configured member as it is" if pure else "a value computed from run-time state (`%s`)" % X.text(X.kids(rets[0])[0], g)[:60]), pure,
+                detail="a sharing bias that reports 0 is scheduled on a worker thread, where its file output is refused", func=g.q)
             # the member has a value whatever the configuration: set by every constructor (initialiser list or default
             # member initialiser) or assigned in init() outside any configuration-dependent branch
             for m in sorted(set(mem)):
